@@ -149,6 +149,88 @@ theorem runOps_refines : ∀ (ops : List FileOp) (fs : Fs) (fd : Fd) (c : Bytes)
     rw [i4 q hq, h7 q hq]
 
 
+/-! ### the kernel's splitting of path strings (at `/` only) -/
+
+theorem ksplit_ne_nil (p : Bytes) : ksplit p ≠ [] := by
+  cases p with
+  | nil => simp [ksplit]
+  | cons c cs =>
+    simp only [ksplit]
+    by_cases hc : isSlash c = true
+    · simp [hc]
+    · simp only [hc, Bool.false_eq_true, if_false]
+      cases ksplit cs <;> simp
+
+theorem ksplit_sepfree : ∀ (p : Bytes), ∀ c ∈ ksplit p, ∀ x ∈ c, isSlash x = false := by
+  intro p
+  induction p with
+  | nil => intro c hc x hx; simp [ksplit] at hc; subst hc; simp at hx
+  | cons a as ih =>
+    intro c hc x hx
+    simp only [ksplit] at hc
+    by_cases ha : isSlash a = true
+    · simp only [ha, if_true, List.mem_cons] at hc
+      rcases hc with rfl | hc
+      · simp at hx
+      · exact ih c hc x hx
+    · simp only [ha, Bool.false_eq_true, if_false] at hc
+      cases hs : ksplit as with
+      | nil => exact absurd hs (ksplit_ne_nil as)
+      | cons h t =>
+        simp only [hs, List.mem_cons] at hc
+        rcases hc with rfl | hc
+        · simp only [List.mem_cons] at hx
+          rcases hx with rfl | hx
+          · simpa using ha
+          · exact ih h (by simp [hs]) x hx
+        · exact ih c (by simp [hs, hc]) x hx
+
+theorem ksplit_of_sepfree : ∀ (c : Bytes), (∀ x ∈ c, isSlash x = false) → ksplit c = [c] := by
+  intro c
+  induction c with
+  | nil => intro _; simp [ksplit]
+  | cons a as ih =>
+    intro h
+    have ha : isSlash a = false := h a (List.mem_cons_self)
+    have := ih (fun x hx => h x (List.mem_cons_of_mem _ hx))
+    simp [ksplit, ha, this]
+
+/-- pieces of `a ++ sep :: b` -/
+theorem ksplit_append_sep (a : Bytes) (s : Nat) (b : Bytes) (hs : isSlash s = true) :
+    ksplit (a ++ s :: b) = ksplit a ++ ksplit b := by
+  induction a with
+  | nil => simp [ksplit, hs]
+  | cons c cs ih =>
+    simp only [List.cons_append, ksplit]
+    by_cases hc : isSlash c = true
+    · simp [hc, ih]
+    · simp only [hc, Bool.false_eq_true, if_false, ih]
+      cases hcs : ksplit cs with
+      | nil => exact absurd hcs (ksplit_ne_nil cs)
+      | cons h t => simp
+
+theorem kchunks_nil : kchunks [] = [] := by simp [kchunks, ksplit]
+
+theorem kchunks_append_sep (a : Bytes) (s : Nat) (b : Bytes) (hs : isSlash s = true) :
+    kchunks (a ++ s :: b) = kchunks a ++ kchunks b := by
+  simp [kchunks, ksplit_append_sep a s b hs]
+
+theorem kchunks_of_sepfree (c : Bytes) (hne : c ≠ []) (h : ∀ x ∈ c, isSlash x = false) : kchunks c = [c] := by
+  simp only [kchunks, ksplit_of_sepfree c h, List.filter_cons, List.filter_nil]
+  cases c with
+  | nil => exact absurd rfl hne
+  | cons a as => simp
+
+theorem kchunks_spec (p : Bytes) : ∀ c ∈ kchunks p, c ≠ [] ∧ ∀ x ∈ c, isSlash x = false := by
+  intro c hc
+  simp only [kchunks, List.mem_filter] at hc
+  refine ⟨?_, ksplit_sepfree p c hc.1⟩
+  intro h; subst h; simp at hc
+
+
+
+theorem dotdot_kfree : ∀ x ∈ dotdot, isSlash x = false := by decide
+
 /-! ### the kernel path walk -/
 
 theorem walkAux_cons (fs : Fs) (k : CPath → List Name → Bool → Res) (cur : CPath) (c : Name) (rest : List Name) (fo : Bool) :
@@ -162,7 +244,7 @@ theorem walkAux_cons (fs : Fs) (k : CPath → List Name → Bool → Res) (cur :
         | some (.file d) => if rest = [] then .found (cur ++ [c]) (.file d) else .err .enotdir
         | some (.link t) =>
           if rest = [] ∧ fo = false then .found (cur ++ [c]) (.link t)
-          else k (if startsWith47 t then [] else cur) (chunks t ++ rest) fo := by
+          else k (if startsWith47 t then [] else cur) (kchunks t ++ rest) fo := by
   simp only [walkAux]
   split <;> rfl
 
